@@ -864,7 +864,7 @@ type c12Part struct {
 	name   string
 	ki     int
 	v2     bool
-	blocks []string // "tree" or "tree/ncpu"
+	blocks []string // "tree" | "tree/ncpu" | "tree/ncpu/modes" (modes: letters of c=cold w=warm f=force)
 }
 
 // c12Plan lists the parts in execution order: small ones first, the big CPU-set blocks last, so that a time cap
@@ -897,8 +897,9 @@ func c12Plan(kinds []c12Kind, thorough bool) []c12Part {
 		add(kn, "", "chain2", "chain1", "chain3", "fan2", "fan2g", "fan2gg")
 	}
 	add("cpuset", "", "chain2/4", "chain1/4", "chain3/4", "fan2/4")
-	add("cpuset", "-chain3-5cpu", "chain3/5")
-	add("cpuset", "-fan2g", "fan2g/4")
+	// the two big blocks: cache mode force re-runs every updater in pass 2 and is covered on the smaller trees
+	add("cpuset", "-fan2g", "fan2g/4/cw")
+	add("cpuset", "-chain3-5cpu", "chain3/5/cw")
 	return parts
 }
 
@@ -926,9 +927,13 @@ func TestVerifC12Leveled(t *testing.T) {
 	}
 
 	var rc c12Case
-	if _, ok := env.ReplayData(&rc); ok {
-		helper.SetCgroupsV2(rc.V2)
+	if part, ok := env.ReplayData(&rc); ok {
 		res := mc.NewResult("C12", "replay", "faults")
+		if !strings.HasPrefix(part, "leveled-") {
+			env.Emit(res) // a replay file of the other unit
+			return
+		}
+		helper.SetCgroupsV2(rc.V2)
 		rc.Reject = nil
 		env.ParallelRangeL(res, 1, func(l *mc.Local, _ int64) { c12Judge(rigs[l.Worker], kinds, rc, res, l, mc.NewDistinctSet()) })
 		b, _ := json.Marshal(res.Violations)
@@ -946,10 +951,18 @@ func TestVerifC12Leveled(t *testing.T) {
 		var total int64
 		bounds := map[string]any{}
 		for _, spec := range p.blocks {
-			nm, ncpu := spec, 0
-			if i := strings.IndexByte(spec, '/'); i >= 0 {
-				nm = spec[:i]
-				ncpu, _ = strconv.Atoi(spec[i+1:])
+			f := strings.Split(spec, "/")
+			nm, ncpu, modes := f[0], 0, allModes
+			if len(f) > 1 {
+				ncpu, _ = strconv.Atoi(f[1])
+			}
+			if len(f) > 2 {
+				modes = nil
+				for _, m := range allModes {
+					if strings.Contains(f[2], m[:1]) {
+						modes = append(modes, m)
+					}
+				}
 			}
 			tr := c12Trees[nm]
 			dom := k.Vals
@@ -959,7 +972,7 @@ func TestVerifC12Leveled(t *testing.T) {
 					dom = append(dom, m)
 				}
 			}
-			b := c12Block{tree: tr, ncpu: ncpu, valid: c12Valid(&tr, k, dom), modes: allModes}
+			b := c12Block{tree: tr, ncpu: ncpu, valid: c12Valid(&tr, k, dom), modes: modes}
 			b.size = int64(len(b.valid)) * int64(len(b.valid)) * int64(len(b.modes)) * int64(k.NTok)
 			blocks = append(blocks, b)
 			total += b.size
